@@ -484,7 +484,7 @@ def _thread_returns(c, first_new, cont, dest, adt_discr):
             if len(out) > 8 or i < first_new:
                 return None
             bl = c["blocks"][i]
-            if bl["term"]["k"] != "goto" or writes_dest(bl):
+            if bl["term"]["k"] not in ("goto", "drop") or writes_dest(bl):      # (a `drop` of a by-value parameter at the helper's exit has one way on)
                 return None
             out.append(i)
             i = bl["term"]["t"]
@@ -564,7 +564,9 @@ def _thread_returns(c, first_new, cont, dest, adt_discr):
             c["blocks"].append({"cleanup": False, "stmts": [], "term": tcall})
             head = len(c["blocks"]) - 1
         for ci in reversed(chain):
-            c["blocks"].append({"cleanup": False, "stmts": copy.deepcopy(c["blocks"][ci]["stmts"]), "term": {"k": "goto", "t": head}})
+            tcopy = copy.deepcopy(c["blocks"][ci]["term"])
+            tcopy["t"] = head
+            c["blocks"].append({"cleanup": False, "stmts": copy.deepcopy(c["blocks"][ci]["stmts"]), "term": tcopy})
             head = len(c["blocks"]) - 1
         if pb["term"]["k"] == "goto":
             pb["term"] = {"k": "goto", "t": head}
